@@ -13,8 +13,8 @@ TRUSTED = ["hand-written model Model/ForceSys.v tied to fmatrix._build_matrix/ge
            "edge.get_vector_from_vertex by exact (rational) correspondence; the fitted circle centre and the normalised "
            "versor are taken from the implementation (circle fit and np.linalg.norm are oracles)",
            "row order follows the implementation's tj_vertices (iteration order of a Python set; the property does not fix it)"]
-ASSUMPTIONS = ["circle-fit accuracy (fit_delta, calibrated by tools/calibrate_fit.py): 1e-4 (dlite) / 1e-6 (taubinSVD) on arcs turning by >= 0.04 rad, 5e-3 + 0.6 x turning "
-               "on flatter arcs and on straight interfaces with >= 3 points (the least-squares fit stops early there), 1e-12 for two-point interfaces"]
+ASSUMPTIONS = ["circle-fit accuracy (fit_delta, calibrated by tools/calibrate_fit.py after the fix of D25): 1e-5 (dlite) / 1e-6 (taubinSVD) on arcs, 1e-3 on "
+               "straight interfaces with >= 3 points, 1e-12 for two-point interfaces"]
 TESTED_NOT_PROVED = ["that the fitted centre is the centre of the arc (circle-fit contract) is checked numerically per interface"]
 IMPORTS = "From Forsys Require Import Model.Num Model.CaseUtil Model.PyList Model.Interfaces Model.ForceSys.\n"
 
@@ -27,14 +27,14 @@ def iface_theta(it):
 
 
 def fit_delta(fit, npts, theta, straight):
-    """accuracy of the circle fits, calibrated on 40000 exact arcs / lines (tools/calibrate_fit.py): 'dlite' (scipy leastsq) is within 6e-6
-    on arcs turning by >= 0.04 rad and terminates early on flatter arcs and on lines that are collinear only up to rounding (error <=
-    2.2e-3 + 0.55 x turning); taubinSVD is within 2e-11 on arcs and 5e-5 on such lines; exactly collinear points: 1e-8 (both)"""
+    """accuracy of the circle fits, calibrated on 40000 exact arcs / lines (tools/calibrate_fit.py, after the fix of D25): 'dlite' (scipy leastsq
+    with the exact Jacobian) is within 3e-7 on arcs of any turning, taubinSVD within 6e-11; lines that are collinear only up to rounding
+    (the exact-collinearity shortcut of D23 does not fire) come out within 7e-5 with both; exactly collinear points within 1e-8"""
     if npts == 2:
         return 1e-12
-    if straight or (fit == "dlite" and theta < 0.04):
-        return 5e-3 + 0.6 * theta
-    return 1e-4 if fit == "dlite" else 1e-6
+    if straight:
+        return 1e-3
+    return 1e-5 if fit == "dlite" else 1e-6
 
 
 def hquad(t, d):
